@@ -205,16 +205,13 @@ func (x *Exec) loadQuiet(st *State, p PtrV) Val {
 		case "field", "cell":
 			ts[i] = mkApp("select", c.Sort, x.heapGet(st, p.Key+c.Suffix, arrSort(c.Sort)), p.Ref)
 		case "elem":
-			ts[i] = mkApp("select", c.Sort, mkApp("select", arrSort(c.Sort), x.heapGet(st, p.Key+c.Suffix, arrSort(arrSort(c.Sort))), p.Ref), p.Idx)
+			ts[i] = x.elemRead(mkApp("select", arrSort(c.Sort), x.heapGet(st, p.Key+c.Suffix, arrSort(arrSort(c.Sort))), p.Ref), p, c.Sort)
 		}
 	}
 	v := unflatten(p.T, ts)
 	if x.inQuant == 0 {
-		// range facts of the stored type are axioms of the heap model
-		if lo, hi, ok := intRange(p.T); ok {
-			tv := v.(*Term)
-			x.Sc.Assert(tAnd(tLe(mkBig(lo), tv), tLe(tv, mkBig(hi))))
-		}
+		// well-formedness of stored values (ranges, refs below alloc, slice shape) are axioms of the heap model
+		x.assumeWF(&State{Guard: tTrue, Alloc: st.Alloc}, v, p.T)
 	}
 	return v
 }
@@ -387,6 +384,24 @@ func (x *Exec) evalCall(fc *frameCtx, st, old *State, e *CExpr, b binds) TV {
 	case "lower":
 		x.Sc.DeclareFun("str.lower", []string{SInt}, SInt)
 		return TV{mkApp("str.lower", SInt, arg(0).V.(*Term)), types.Typ[types.String]}
+	}
+	if strings.HasPrefix(e.Name, "uf_") {
+		// uninterpreted spec function over integers/strings
+		var args []*Term
+		var sorts []string
+		for i := range e.Args {
+			args = append(args, arg(i).V.(*Term))
+			sorts = append(sorts, SInt)
+		}
+		ret := SInt
+		if strings.HasPrefix(e.Name, "uf_is") {
+			ret = SBool
+		}
+		x.Sc.DeclareFun(e.Name, sorts, ret)
+		if ret == SBool {
+			return TV{mkApp(e.Name, ret, args...), tBoolT}
+		}
+		return TV{mkApp(e.Name, ret, args...), tInt}
 	}
 	// predicate macro
 	pkg := ""
